@@ -505,6 +505,8 @@ cap_out a_capped(char kind, size_t cap, const std::string &payload, const std::s
 // binary_buffer_writer over an exactly sized buffer (size = what binary_string_writer produced)
 bytes a_binwriter(const std::string &desc, const DV &v, size_t size);
 bool a_binwriter_has(const std::string &desc);
+// round 3b: binary_buffer_writer of ANY hand-written archive type into a caller buffer of cap bytes
+bool a_bufwrite(const std::string &desc, const DV &v, uint8_t *p, size_t cap, long &cursor);
 // struct { T xs[N]; reflect(r) { r & igris::archive::data<T>(xs, N); } }: desc "sc:N"; encode / decode (into a value-initialised array)
 bool a_data_has(const std::string &key);
 std::vector<std::string> a_data_keys();
@@ -526,4 +528,7 @@ template <class Writer, class Reader> struct type_h
     virtual DV dec_api(const bytes &) = 0;
     virtual DV canon(const DV &d) { return d; }
     virtual DV dec_into(Reader &, const DV &dest) = 0;
+    // round 3b: the value written by the fixed-buffer writer into [p, p+cap); false = no such writer for this type.
+    // cursor = writer position afterwards, or -1 when the writer does not expose one
+    virtual bool enc_buf(uint8_t *, size_t, const DV &, long &) { return false; }
 };
